@@ -136,10 +136,12 @@ pub struct Opts {
     pub digests: bool,
     pub raw_tags: Vec<(IndexTag, u32)>,
     pub off_mem: Option<rpm::PackageSegmentOffsets>,
+    /// also go through the path-based API (Package::open, PackageMetadata::open, write_file)
+    pub file_api: bool,
 }
 impl Opts {
     pub fn new(origin: &str) -> Opts {
-        Opts { origin: origin.to_string(), emitted: false, gets: false, digests: false, raw_tags: vec![], off_mem: None }
+        Opts { origin: origin.to_string(), emitted: false, gets: false, digests: false, raw_tags: vec![], off_mem: None, file_api: false }
     }
 }
 
@@ -237,11 +239,26 @@ pub fn observe(input: &[u8], o: &Opts) -> Value {
             }
         }
         let tail_equal = written.len() >= prefix_len && written[prefix_len..] == input[prefix_len..];
+        let mut file_api_equal = true;
+        if o.file_api {
+            // the path-based entry points are the same functions over a file
+            let dir = std::env::temp_dir().join(format!("rpm_verif_fileapi_{}", std::process::id()));
+            std::fs::create_dir_all(&dir)?;
+            let (pin, pout) = (dir.join("in.rpm"), dir.join("out.rpm"));
+            std::fs::write(&pin, input)?;
+            let opened = Package::open(&pin)?;
+            let opened_meta = PackageMetadata::open(&pin)?;
+            opened.write_file(&pout)?;
+            let rewritten_file = std::fs::read(&pout)?;
+            file_api_equal = opened.metadata == pkg.metadata && opened.content == pkg.content
+                && opened_meta == pkg.metadata && rewritten_file == written;
+            let _ = std::fs::remove_dir_all(&dir);
+        }
         if written != input {
             *differing.borrow_mut() = Some(written.clone());
         }
         Ok(json!({"written_len": written.len(), "diff": diff, "tail_equal": tail_equal,
-                  "reparsed_equal": reparsed_equal && meta_ok, "rewritten_equal": rewritten == written,
+                  "reparsed_equal": reparsed_equal && meta_ok && file_api_equal, "rewritten_equal": rewritten == written,
                   "off": off_json(&pkg.metadata.get_package_segment_offsets()),
                   "content_len": pkg.content.len()}))
     });
